@@ -1,6 +1,7 @@
 package core
 
 import (
+	"strconv"
 	"encoding/binary"
 	"fmt"
 	"os"
@@ -406,8 +407,11 @@ const (
 // StartWatchdog samples the case in flight. It never takes a lock shared with the workload.
 // singleCase: replay mode (confirm a suspicion): the limit is confirmCPU and the exit code is
 // ExitHang.
-func (c *Ctx) StartWatchdog(suspectFile string, singleCase bool) {
-	const suspectCPU, confirmCPU = 10.0, 20.0
+func (c *Ctx) StartWatchdog(suspectFile string, singleCase, patient bool) {
+	suspectCPU, confirmCPU := 10.0, 20.0
+	if v, err := strconv.ParseFloat(os.Getenv("VERIF_TEST_SUSPECT_CPU"), 64); err == nil && v > 0 {
+		suspectCPU = v // self-test of the suspicion / confirmation / patient re-run path only
+	}
 	const heapCap = 3 << 30
 	go func() {
 		lastSeq := c.seq.Load()
@@ -429,6 +433,8 @@ func (c *Ctx) StartWatchdog(suspectFile string, singleCase bool) {
 				code := ExitSuspect
 				if singleCase {
 					limit, code = confirmCPU, ExitHang
+				} else if patient {
+					limit = confirmCPU // second attempt at a shard after an unconfirmed suspicion
 				}
 				if now-lastCPU > limit {
 					sec, _ := c.curSection.Load().(string)
